@@ -1328,6 +1328,13 @@ class Interp:
                 return [(s, a)]
             x, y = sorted([a, b], key=repr)
             return [(s, ("call", name, (x, y), None))]
+        if krate == "core" and name == "and" and len(args) == 2:
+            # Result::and / Option::and: the argument has already been evaluated (eagerly) when we get here
+            a, b2 = self.load_ref(s, args[0]), self.load_ref(s, args[1])
+            if isinstance(a, tuple) and a and a[0] == "adt" and a[1] in ("core::result::Result", "core::option::Option"):
+                good = 0 if a[1] == "core::result::Result" else 1
+                return [(s, b2 if a[2] == good else a)]
+            return [(s, ("call", "and", (a, b2), None))]
         if krate == "core" and name == "clamp" and len(args) == 3:
             x, lo, hi = (self.load_ref(s, a) for a in args)
             if is_c(x) and is_c(lo) and is_c(hi):
